@@ -262,6 +262,98 @@ def make_case(cid, rng, entries_text, bin_run, root_in_subdir=None):
             "tags": [cut.tags[i] for i in range(len(entries_text))], "features": sorted(cut.features), "kind": "cut"}
 
 
+def link_cases(cid, rng, texts, bin_run):
+    """real file system only: the ledger is cut into four pieces A B C D; B and C live in files that are reached through a
+    symbolic link (a linked directory, a linked file, a linked root, a glob through a linked directory). `Paths relative to
+    the including file` means relative to where that file really is (the loader canonicalises before it takes the parent
+    directory), so a `..` out of a linked directory, and the includes of a linked file, must resolve at the real location;
+    decoy files sit where a lexical resolution of the link path would look."""
+    base = BASE + cid + "/t"
+    n = len(texts)
+    i, j, k = sorted(rng.randrange(0, n + 1) for _ in range(3))
+    A, B, C, D = texts[:i], texts[i:j], texts[j:k], texts[k:]
+    decoy = "; decoy: this file is not part of the ledger\n"
+    tmpl = rng.choice(["dirlink-dotdot", "filelink", "rootlink", "dirlink-plain", "globlink", "dirlink-dotdot"])
+    files, links, tags = {}, {}, []
+    J = "\n".join
+    if tmpl == "dirlink-dotdot":
+        root = base + "/root.ledger"
+        files[root] = J(A + ["include current/part.ledger\n"] + D)
+        files[base + "/archive/y2024/part.ledger"] = J(B + ["include ../common.ledger\n"])
+        files[base + "/archive/common.ledger"] = J(C)
+        links[base + "/current"] = "archive/y2024"
+        if rng.random() < 0.5:
+            files[base + "/common.ledger"] = decoy
+        tags = [root] * len(A) + [base + "/archive/y2024/part.ledger"] * len(B) + [base + "/archive/common.ledger"] * len(C) + [root] * len(D)
+    elif tmpl == "filelink":
+        root = base + "/root.ledger"
+        files[root] = J(A + ["include links/q1.ledger\n"] + D)
+        links[base + "/links/q1.ledger"] = "../y2024/q1.ledger"
+        files[base + "/y2024/q1.ledger"] = J(B + ["include parts/*.ledger\n"])
+        files[base + "/y2024/parts/x.ledger"] = J(C)
+        if rng.random() < 0.5:
+            files[base + "/links/parts/x.ledger"] = decoy
+        tags = [root] * len(A) + [base + "/y2024/q1.ledger"] * len(B) + [base + "/y2024/parts/x.ledger"] * len(C) + [root] * len(D)
+    elif tmpl == "rootlink":
+        root = base + "/entry.ledger"
+        real = base + "/real/deep/main.ledger"
+        links[root] = "real/deep/main.ledger"
+        files[real] = J(A + ["include ../p.ledger\n"] + D)
+        files[base + "/real/p.ledger"] = J(B + C)
+        if rng.random() < 0.5:
+            files[BASE + cid + "/p.ledger"] = decoy
+        tags = [real] * len(A) + [base + "/real/p.ledger"] * (len(B) + len(C)) + [real] * len(D)
+    elif tmpl == "dirlink-plain":
+        root = base + "/root.ledger"
+        files[root] = J(A + ["include cur/p.ledger\n"] + D)
+        links[base + "/cur"] = "store/deep/x"
+        files[base + "/store/deep/x/p.ledger"] = J(B + ["include q.ledger\n"])
+        files[base + "/store/deep/x/q.ledger"] = J(C)
+        tags = [root] * len(A) + [base + "/store/deep/x/p.ledger"] * len(B) + [base + "/store/deep/x/q.ledger"] * len(C) + [root] * len(D)
+    else:  # globlink
+        root = base + "/root.ledger"
+        files[root] = J(A + ["include cur/*.ledger\n"] + D)
+        links[base + "/cur"] = "store/x"
+        files[base + "/store/x/a.ledger"] = J(B)
+        files[base + "/store/x/b.ledger"] = J(C)
+        tags = [root] * len(A) + [base + "/store/x/a.ledger"] * len(B) + [base + "/store/x/b.ledger"] * len(C) + [root] * len(D)
+    whole = J(texts)
+    words = [cid, "root=" + enc(root), "whole=%s=%s" % (enc(BASE + cid + "/w/whole.ledger"), enc(whole))]
+    if bin_run:
+        words.append("bin=1")
+    words += ["%s=%s" % (enc(p), enc(t)) for p, t in files.items()]
+    words += ["l:%s=%s" % (enc(l), enc(t)) for l, t in links.items()]
+    return {"id": cid, "line": " ".join(words), "root": root, "files": files, "links": links, "whole": whole, "tags": tags,
+            "features": ["link:" + tmpl], "kind": "link"}
+
+
+def oracle_links(case, f):
+    """the property for a tree with symbolic links (real file system only; the in-memory one has no links)."""
+    bad = []
+    wkind, wseq = parse_res(f["whole"])
+    if wkind != "ok":
+        return ["generator: the unsplit ledger does not load: " + wkind]
+    want = [e for _, e in wseq]
+    kind, seq = parse_res(f["prod"])
+    if kind != "ok":
+        return ["prod: loading the cut tree (parts reached through symbolic links) fails with %s" % kind]
+    got = [e for _, e in seq]
+    if got != want:
+        bad.append("prod: delivered entry sequence differs from the unsplit ledger (%d vs %d entries)" % (len(got), len(want)))
+    elif [p for p, _ in seq] != case["tags"]:
+        bad.append("prod: entries are not tagged with the (canonical) file that contains them: %s" % sorted(set(p for p, _ in seq) - set(case["tags"]))[:2])
+    for a, b in (("rprod", "rwhole"), ("aprod", "awhole")):
+        if f[a] != f[b]:
+            bad.append("%s differs from %s: %s vs %s" % (a, b, f[a][:200], f[b][:200]))
+    if f.get("bin", "-") != "-":
+        fl, ba, rc1, rc2 = f["bin"].split(",")
+        if fl != "1":
+            bad.append("`okane primitive flatten` of the cut tree differs from the unsplit ledger (rc %s vs %s)" % (rc1, rc2))
+        if ba != "1":
+            bad.append("`okane balance` of the cut tree differs from the unsplit ledger")
+    return bad
+
+
 def raw_case(cid, root_rel, files, expect, what, binary=None, dirs=()):
     """a hand-made tree; files: rel path -> text/bytes; expect: dict with the error kind expected on each FS."""
     base = BASE + cid + "/t/"
@@ -514,6 +606,11 @@ def run(chk):
         for ci in range(3):
             k += 1
             cases.append(dict(make_case("c%d" % k, chk.rng, texts, bin_run=(k % bin_every == 0)), stream="cut"))
+    # 3b. parts reached through symbolic links (real file system only; not sent to the model, whose file system has no links)
+    link_cs = []
+    for li in range(60 if chk.tier == "quick" else 1500):
+        texts, g = gen_ledger(chk.rng)
+        link_cs.append(dict(link_cases("s%d" % li, chk.rng, texts, bin_run=(li % 10 == 0)), stream="links"))
     # 4. thorough: all cuts of a 5-entry ledger into <= 3 files (two cut points, each piece a literal sibling include)
     if chk.tier == "thorough":
         texts, g = gen_ledger(chk.rng)
@@ -550,6 +647,31 @@ def run(chk):
         chk.violation("protocol error: %d cases, %d implementation records, %d model records" % (len(lines), len(impl), len(model)),
                       {"broken": "c11 line protocol"}, no_failing_input=True, tag="err")
         return
+    limpl = run_sharded(HX, ["c11", "load"], [c["line"] for c in link_cs], shards=8)
+    if len(limpl) != len(link_cs):
+        chk.violation("protocol error: %d link cases, %d implementation records" % (len(link_cs), len(limpl)),
+                      {"broken": "c11 line protocol (links)"}, no_failing_input=True, tag="err")
+        return
+    for c, a in zip(link_cs, limpl):
+        chk.streams["links"] = chk.streams.get("links", 0) + 1
+        f = parse_fields(a)
+        chk.case(c["line"].split(" ", 1)[1].replace(c["id"], "#"), nontrivial=True)
+        chk.traces += 1
+        chk.count("mode:" + c["features"][0])
+        if "prod" not in f:
+            chk.violation("harness could not run the case: " + a[:200], {"case": c["line"]}, no_failing_input=True, tag="err")
+            continue
+        bad = oracle_links(c, f)
+        if bad and bad[0].startswith("generator:"):
+            chk.count("generator-rejects")
+            continue
+        if bad:
+            chk.oracle_failures += 1
+            chk.violation("C11 fails on the real loader (real file system, parts reached through symbolic links): " + "; ".join(bad[:3]),
+                          {"stream": "links", "case": c["line"], "files": c["files"], "links": c["links"], "root": c["root"],
+                           "unsplit_ledger": c["whole"], "expected": "delivered == unsplit ledger, tagged with the real paths; reports equal",
+                           "observed": {k: f.get(k, "")[:1500] for k in ("prod", "rprod", "rwhole", "bin")},
+                           "rerun": "echo '%s' | %s c11 load" % (c["line"], HX)})
     for c, a, b in zip(cases, impl, model):
         chk.streams[c["stream"]] = chk.streams.get(c["stream"], 0) + 1
         f = parse_fields(a)
